@@ -1,5 +1,5 @@
 (* C10 - Header loading accepts exactly magic- and checksum-valid headers. *)
-Require Import Bytes Outcome Common TagType Header C10Proofs.
+Require Import Bytes Outcome Common TagType Header Sparse C10Proofs SparseProofs.
 
 Theorem C10_load_spec : forall (p : profile) (a : N) (bs : list byte),
   a mod 8 = 0 -> 16 <= len bs -> le (slice bs 8 4) <= len bs -> arch_defined (le (slice bs 4 4)) = true ->
@@ -24,3 +24,11 @@ Theorem C10_checksum_law : forall m a l,
   calc_checksum m a l < pow2_32 /\ (calc_checksum m a l + m + a + l) mod pow2_32 = 0.
 Proof. exact checksum_law. Qed.
 Print Assumptions C10_checksum_law.
+
+(* headers declaring lengths no list of bytes can hold (2^31 and beyond): on EVERY memory that starts with these 16
+   bytes and holds the declared length, load is the closed form evaluated on the 16 bytes alone *)
+Theorem C10_load_sparse : forall p a hdr16 rest,
+  a mod 8 = 0 -> len hdr16 = 16 -> le (slice hdr16 8 4) <= 16 + len rest -> arch_defined (le (slice hdr16 4 4)) = true ->
+  hdr_load p false {| m_base := a; m_bytes := hdr16 ++ rest |} = hdr_load_sparse hdr16.
+Proof. exact hdr_load_sparse_ok. Qed.
+Print Assumptions C10_load_sparse.
